@@ -2,6 +2,7 @@ package gomatrixserverlib
 
 import (
 	"encoding/json"
+	"errors"
 
 	"github.com/matrix-org/gomatrixserverlib/spec"
 )
@@ -151,6 +152,10 @@ func redactEventJSON[T unredactableEvent](eventJSON []byte, unredactableEvent T,
 	// Unmarshalling into a struct will discard any extra fields from the event.
 	if err := json.Unmarshal(eventJSON, &unredactableEvent); err != nil {
 		return nil, err
+	}
+	if unredactableEvent == nil {
+		// the JSON text "null" unmarshals into a nil pointer
+		return nil, errors.New("gomatrixserverlib: cannot redact an event that is not a JSON object")
 	}
 	newContent := map[string]interface{}{}
 	keepContentFields, ok := eventTypeToKeepContentFields[unredactableEvent.GetType()]
